@@ -92,6 +92,19 @@ def handle (fn : String) : Handler := fun a _impl =>
     let s := Float.ofBits (pNat bits).toUInt64
     let ok := ckksScaleOk s (pNat totalBits)
     some (fBool ok, fBool ok)
+  | "ckks_scales_close", [b1, b2] =>
+    -- `are_close_f64` on two scales given by their IEEE bit patterns: model = the exact dyadic rule `areCloseDy`;
+    -- spec: bit-identical scales agree, scales at least 2^-45 apart (relative) disagree, in between no claim
+    let dy (b : Nat) : Option (Int × Int) :=
+      let ex : Nat := b / 2^52 % 2048; let fr : Nat := b % 2^52
+      if b / 2^63 % 2 = 1 ∨ ex = 2047 then none else some (if ex = 0 then ((fr : Int), -1074) else (((fr + 2^52 : Nat) : Int), (ex : Int) - 1075))
+    match dy (pNat b1), dy (pNat b2) with
+    | some (m1, e1), some (m2, e2) =>
+      let e := min (min e1 e2) 0
+      let a := m1 * 2 ^ (e1 - e).toNat; let b := m2 * 2 ^ (e2 - e).toNat; let one : Int := 2 ^ (-e).toNat
+      let far := decide (max (max a b) one ≤ ((a - b).natAbs : Int) * 35184372088832)
+      some (fBool (areCloseDy m1 e1 m2 e2), if pNat b1 = pNat b2 then "1" else if far then "0" else "ANY")
+    | _, _ => some ("ANY", "ANY")
   | _, _ => none
 
 end Drv.C03
